@@ -11,7 +11,8 @@
    the correspondence check establishes on every pack it writes (the extracted reader must find every
    content at the cluster/blob the proved state machine plans, and the canonical-form check of C14). *)
 From Coq Require Import List Arith NArith.
-From Jbk Require Import Base.ListExtra Base.Bytes Base.Crc Base.Parser Base.Prog Format.Structs Content.Cluster Content.Pack Content.FilePack.
+From Jbk Require Import Base.ListExtra Base.Bytes Base.Crc Base.Parser Base.Prog Format.Structs Content.Cluster Content.Pack Content.FilePack
+  Manifest.SetLocation Container.Reader Container.EndToEnd.
 Import ListNotations.
 
 (* (a) For every insertion sequence (any sizes, any storage decisions): insertion i gets an address
@@ -87,6 +88,22 @@ Theorem C01_stored_content_reads_back :
       run f (cp_read_p p (N.of_nat i)) = Ok (Some (k, j, CRaw off (lenN x), Some x)).
 Proof. exact stored_content_reads_back. Qed.
 
+(* (d) through the container: the same, as Container::get_bytes answers it for a pack embedded in the file at hand *)
+Theorem C01_inserted_content_reads_back_through_the_container :
+  forall c fs pack_id info (ops : list (list N * bool)) pos size h ch clusters i x,
+    let s := fold_left (add (list N) lenN) ops (init (list N)) in
+    find (fun p => (pi_id p =? pack_id)%N) (mf_packs (ct_manifest c)) = Some info ->
+    find_uuid (pi_uuid info) (ct_packs c) = Some (pos, size) ->
+    content_pack_at (ct_main c) pos h ch (map info_of (infos (list N) s)) clusters ->
+    Forall2 cluster_matches (cs (list N) s) clusters ->
+    (N.of_nat (length (cs (list N) s)) <= 2 ^ 20)%N ->
+    nth_error ops i = Some (x, false) ->
+    exists k j off, get_content c fs pack_id (N.of_nat i) = Ok (CFound k j (CRaw off (lenN x)) (Some x)).
+Proof.
+  intros c fs pack_id info ops pos size h ch clusters i x s L.
+  exact (inserted_content_reads_back_through_the_container c fs pack_id info L ops pos size h ch clusters i x).
+Qed.
+
 Theorem C01_raw_content_at_its_address :
   forall f base h ch infos clusters (P : content_pack_at f base h ch infos clusters) i k j c so b,
     nth_error infos i = Some (N.of_nat k, N.of_nat j) ->
@@ -128,3 +145,4 @@ Print Assumptions C01_content_info_roundtrip.
 Print Assumptions C01_block_read_back_where_placed.
 Print Assumptions C01_needed_bytes_fits.
 Print Assumptions C01_pinned_tail_width_refuted.
+Print Assumptions C01_inserted_content_reads_back_through_the_container.
